@@ -345,10 +345,8 @@ func (p c14) RunBatch(c *fw.Ctx) {
 		g := gt.NewGen(c.Rng)
 		g.NoClosure = true
 		stmts := g.Program(2+c.Rng.IntN(12), 1+c.Rng.IntN(3))
-		ref := gt.NewRef()
-		ref.Run(stmts)
-		if ref.Exhausted || ref.BigInPlace {
-			continue
+		if !refSessionUsable(stmts) {
+			continue // non-terminating, or in the region of the aliasing finding (C06) where values may even become cyclic
 		}
 		rr := &gt.Renderer{}
 		var build []string
